@@ -27,7 +27,10 @@ RULE = ("random systems: 1-3 species x 1-3 environments; density / chstt scalar 
         "symbols); grid (w,h,d <= 4, all boundary settings, number / UnitValue / string cell volume) or graph (1-8 nodes, "
         "per-node volume and units system) spaces with random environment maps; independent random units systems for "
         "species, network, space, nodes and system; every (species, cell) pair read through rotating naming forms; "
-        "random writes; malformed positions / species; species edits + regeneration.  Non-trivial: more than one cell or "
+        "random writes; malformed positions / species; species edits + regeneration; every 5th system has a chstt dictionary with "
+        "an explicitly falsy entry (False / 0 / 0.0) for a used environment AND a truthy 'default' (also after an edit); sharing: "
+        "systems built from another system's arrays / the caller's ndarrays (constructor and property setters), a setter on one "
+        "must change one entry of that system and nothing else, edits of the caller's arrays must not leak.  Non-trivial: more than one cell or "
         "species and a non-zero density somewhere; distinct by the whole description")
 ASSUMPTIONS = [
     "floats: |impl - exact| <= 1e-9 relative (products and unit conversions only, no cancellation)",
@@ -796,7 +799,10 @@ def replay(ctx, rec):
             self.violations.append({"key": key, "what": what, "impl": impl, "expected": expected})
     sink = Sink()
     for _ in range(3):
-        run_system(sink, desc, 0)
+        if case.get("kind") == "sharing":
+            run_sharing(sink, desc, 0)
+        else:
+            run_system(sink, desc, 0)
     key = rec.get("key")
     same = [v for v in sink.violations if v["key"] == key] or sink.violations
     return not sink.violations, {"failures": same[:5]}
